@@ -1,25 +1,12 @@
 /-
 C09 helper lemmas, part 1: byte-string primitives and the characterisation of the group key that
-`getAggSeriesId` extracts from a series id built by the tsid tracker.
+`getAggSeriesId` extracts from a series id built by the tsid tracker (code as of the C09 fix: tags after
+the first "{", split on ",", key compared for equality).
 -/
 import SigModel.Model.Promql
 
 namespace SigModel.Lemmas.C09
 open SigModel.Promql
-
-/-! ### stripPrefix / afterFirst -/
-
-theorem stripPrefix_eq_some {p s r : Str} : stripPrefix p s = some r ↔ s = p ++ r := by
-  induction p generalizing s with
-  | nil => simp [stripPrefix, eq_comm]
-  | cons a p ih =>
-    cases s with
-    | nil => simp [stripPrefix]
-    | cons c s =>
-      simp only [stripPrefix]
-      by_cases h : a = c
-      · subst h; simp [ih]
-      · simp [h]; intro h'; exact absurd h'.symm h
 
 /-- the first occurrence of a separator splits a string uniquely -/
 theorem append_cons_inj {c : Nat} {a a' b b' : Str} (ha : c ∉ a) (ha' : c ∉ a')
@@ -41,62 +28,6 @@ theorem append_cons_inj {c : Nat} {a a' b b' : Str} (ha : c ∉ a) (ha' : c ∉ 
       have := ih (a' := a') (by intro m; exact ha (by simp [m])) (by intro m; exact ha' (by simp [m])) h.2
       exact ⟨by rw [h.1, this.1], this.2⟩
 
-theorem stripPrefix_sep {c : Nat} {f X rest : Str} (hf : c ∉ f) (hX : c ∉ X) :
-    stripPrefix (f ++ [c]) (X ++ c :: rest) = if f = X then some rest else none := by
-  by_cases h : f = X
-  · subst h; simp [stripPrefix_eq_some]
-  · simp only [h, if_false]
-    cases hs : stripPrefix (f ++ [c]) (X ++ c :: rest) with
-    | none => rfl
-    | some r =>
-      rw [stripPrefix_eq_some] at hs
-      have : X ++ c :: rest = f ++ c :: r := by simpa using hs
-      exact absurd (append_cons_inj hX hf this).1.symm h
-
-theorem stripPrefix_none_of_notMem {c : Nat} {f s : Str} (hs : c ∉ s) :
-    stripPrefix (f ++ [c]) s = none := by
-  cases h : stripPrefix (f ++ [c]) s with
-  | none => rfl
-  | some r =>
-    rw [stripPrefix_eq_some] at h
-    exact absurd (by rw [h]; simp) hs
-
-theorem afterFirst_none_of_notMem {c : Nat} {f s : Str} (hs : c ∉ s) :
-    afterFirst (f ++ [c]) s = none := by
-  induction s with
-  | nil => simp [afterFirst, stripPrefix_none_of_notMem]
-  | cons x s ih =>
-    simp only [afterFirst]
-    rw [stripPrefix_none_of_notMem hs]
-    exact ih (by intro m; exact hs (by simp [m]))
-
-/-- Lemma B: the first `c` of the string decides: a match of `f ++ [c]` ends there iff `f` is a suffix
-of the text before it; otherwise the search continues behind it. -/
-theorem afterFirst_sep {c : Nat} {f X rest : Str} (hf : c ∉ f) (hX : c ∉ X) :
-    afterFirst (f ++ [c]) (X ++ c :: rest) =
-      if f <:+ X then some rest else afterFirst (f ++ [c]) rest := by
-  induction X with
-  | nil =>
-    cases f with
-    | nil => simp [afterFirst, stripPrefix]
-    | cons a f =>
-      have hac : a ≠ c := by intro e; exact hf (by simp [e])
-      simp [afterFirst, stripPrefix, hac]
-  | cons x X ih =>
-    have hX' : c ∉ X := by intro m; exact hX (by simp [m])
-    have : (x :: X) ++ c :: rest = x :: (X ++ c :: rest) := rfl
-    rw [this]
-    simp only [afterFirst]
-    rw [← this, stripPrefix_sep hf hX]
-    by_cases h : f = x :: X
-    · simp [h]
-    · simp only [h, if_false]
-      rw [ih hX']
-      have : f <:+ x :: X ↔ f <:+ X := by
-        rw [List.suffix_cons_iff]; simp [h]
-      simp [this]
-
-
 /-! ### cleanliness -/
 
 theorem clean_iff {s : Str} : clean s = true ↔ ∀ c ∈ s, c ≠ cComma ∧ c ≠ cColon ∧ c ≠ cBrace := by
@@ -105,6 +36,12 @@ theorem clean_iff {s : Str} : clean s = true ↔ ∀ c ∈ s, c ≠ cComma ∧ c
 theorem clean_comma {s : Str} (h : clean s = true) : cComma ∉ s := fun m => ((clean_iff.1 h) _ m).1 rfl
 theorem clean_colon {s : Str} (h : clean s = true) : cColon ∉ s := fun m => ((clean_iff.1 h) _ m).2.1 rfl
 theorem clean_brace {s : Str} (h : clean s = true) : cBrace ∉ s := fun m => ((clean_iff.1 h) _ m).2.2 rfl
+
+theorem cleanV_iff {s : Str} : cleanV s = true ↔ ∀ c ∈ s, c ≠ cComma ∧ c ≠ cBrace := by
+  simp [cleanV, List.all_eq_true]
+
+theorem cleanV_comma {s : Str} (h : cleanV s = true) : cComma ∉ s := fun m => ((cleanV_iff.1 h) _ m).1 rfl
+theorem cleanV_brace {s : Str} (h : cleanV s = true) : cBrace ∉ s := fun m => ((cleanV_iff.1 h) _ m).2 rfl
 
 theorem takeWhile_sep {c : Nat} {v r : Str} (hv : c ∉ v) :
     (v ++ c :: r).takeWhile (· != c) = v := by
@@ -115,139 +52,24 @@ theorem takeWhile_sep {c : Nat} {v r : Str} (hv : c ∉ v) :
     have hv' : c ∉ v := by intro m; exact hv (by simp [m])
     simp [hx, ih hv']
 
-theorem suffix_of_suffix_sep {sep : Nat} {f A k : Str} (hf : sep ∉ f) :
-    f <:+ A ++ sep :: k ↔ f <:+ k := by
-  constructor
-  · intro h
-    induction A with
-    | nil =>
-      rcases List.suffix_cons_iff.1 h with e | h'
-      · exact absurd (by rw [e]; simp) hf
-      · exact h'
-    | cons a A ih =>
-      rcases List.suffix_cons_iff.1 h with e | h'
-      · exact absurd (by rw [e]; simp) hf
-      · exact ih h'
-  · intro h
-    exact h.trans (by
-      have : A ++ sep :: k = (A ++ [sep]) ++ k := by simp
-      rw [this]; exact List.suffix_append _ _)
-
-/-! ### what ExtractGroupByFieldsFromSeriesId finds in a tracker-built id -/
-
 theorem mem_labelStr {c : Nat} {kv : Str × Str} : c ∈ labelStr kv ↔ c ∈ kv.1 ∨ c = cColon ∨ c ∈ kv.2 ∨ c = cComma := by
   simp [labelStr, kvStr]
 
-/-- Exact characterisation (no guard on the label NAMES): in `… sep k1:v1,k2:v2,…` the search for
-`f:` returns the value of the FIRST label whose name has `f` as a SUFFIX. -/
-theorem fieldValue_sid (f : Str) (labels : Labels) (A : Str) (sep : Nat)
-    (hA : cColon ∉ A) (hsep : sep ≠ cColon) (hsepf : sep ∉ f) (hf : clean f = true)
-    (hl : ∀ kv ∈ labels, clean kv.1 = true ∧ clean kv.2 = true) :
-    fieldValue f (A ++ sep :: labels.flatMap labelStr)
-      = (labels.find? (fun kv => f.isSuffixOf kv.1)).map (·.2) := by
-  induction labels generalizing A sep with
-  | nil =>
-    have : cColon ∉ A ++ [sep] := by
-      intro m; rcases List.mem_append.1 m with m | m
-      · exact hA m
-      · simp at m; exact hsep m.symm
-    simp [fieldValue, afterFirst_none_of_notMem this]
-  | cons kv ls ih =>
-    obtain ⟨k, v⟩ := kv
-    have hk := (hl (k, v) (by simp)).1
-    have hv := (hl (k, v) (by simp)).2
-    have hls : ∀ kv ∈ ls, clean kv.1 = true ∧ clean kv.2 = true := fun kv m => hl kv (by simp [m])
-    have hX : cColon ∉ A ++ sep :: k := by
-      intro m; rcases List.mem_append.1 m with m | m
-      · exact hA m
-      · rcases List.mem_cons.1 m with m | m
-        · exact hsep m.symm
-        · exact clean_colon hk m
-    have hshape : A ++ sep :: ((k, v) :: ls).flatMap labelStr
-        = (A ++ sep :: k) ++ cColon :: (v ++ cComma :: ls.flatMap labelStr) := by
-      simp [List.flatMap_cons, labelStr, kvStr]
-    rw [hshape]
-    unfold fieldValue
-    rw [afterFirst_sep (clean_colon hf) hX]
-    have hsuf : f <:+ A ++ sep :: k ↔ f <:+ k := suffix_of_suffix_sep hsepf
-    by_cases h : f <:+ k
-    · have h1 : f <:+ A ++ sep :: k := hsuf.2 h
-      have h2 : f.isSuffixOf k = true := by simpa using h
-      simp [h1, List.find?, h2, takeWhile_sep (clean_comma hv)]
-    · have h1 : ¬ f <:+ A ++ sep :: k := fun x => h (hsuf.1 x)
-      have h2 : f.isSuffixOf k = false := Bool.eq_false_iff.2 (by simpa using h)
-      simp only [h1, if_false, List.find?, h2]
-      exact ih v cComma (clean_colon hv) (by decide) (clean_comma hf) hls
-
-theorem lookup_eq_find (f : Str) (labels : Labels) :
-    labels.lookup f = (labels.find? (fun kv => kv.1 == f)).map (·.2) := by
-  induction labels with
-  | nil => rfl
-  | cons kv ls ih =>
-    obtain ⟨k, v⟩ := kv
-    simp only [List.lookup, List.find?]
-    by_cases h : f = k
-    · subst h; simp
-    · have h1 : (f == k) = false := by simpa using h
-      have h2 : (k == f) = false := by simpa using (fun e : k = f => h e.symm)
-      simp [h1, h2, ih]
-
-theorem find_suffix_eq_lookup (f : Str) (labels : Labels)
-    (h : ∀ kv ∈ labels, f.isSuffixOf kv.1 = true → f = kv.1) :
-    (labels.find? (fun kv => f.isSuffixOf kv.1)).map (·.2) = labels.lookup f := by
-  rw [lookup_eq_find]
-  induction labels with
-  | nil => rfl
-  | cons kv ls ih =>
-    obtain ⟨k, v⟩ := kv
-    have ih' := ih (fun kv m => h kv (by simp [m]))
-    simp only [List.find?]
-    by_cases hs : f.isSuffixOf k = true
-    · have e := h (k, v) (by simp) hs
-      subst e; simp [hs]
-    · have hs' : f.isSuffixOf k = false := Bool.eq_false_iff.2 hs
-      have hk : (k == f) = false := by
-        cases hkf : (k == f) with
-        | false => rfl
-        | true =>
-          have e : k = f := by simpa using hkf
-          subst e
-          have : k.isSuffixOf k = true := by simp
-          rw [this] at hs'; cases hs'
-      simp only [hs', hk]; exact ih'
-
-
 /-! ### unpacking the guard -/
 
-structure Safe (name : Str) (labels : Labels) (fields : List Str) : Prop where
-  hname : clean name = true
-  hlabels : ∀ kv ∈ labels, clean kv.1 = true ∧ clean kv.2 = true
-  hfields : ∀ f ∈ fields, clean f = true
-  hnodup : (labels.map (·.1)).Nodup
-  hsuffix : ∀ f ∈ fields, ∀ kv ∈ labels, f.isSuffixOf kv.1 = true → f = kv.1
+structure Safe (name : Str) (labels : Labels) : Prop where
+  hname : cleanV name = true
+  hlabels : ∀ kv ∈ labels, clean kv.1 = true ∧ cleanV kv.2 = true
 
-theorem safe_of_labelSafe {name : Str} {labels : Labels} {fields : List Str}
-    (h : LabelSafe name labels fields) : Safe name labels fields := by
+theorem safe_of_labelSafe {name : Str} {labels : Labels} (h : LabelSafe name labels) : Safe name labels := by
   unfold LabelSafe labelSafe at h
-  simp only [Bool.and_eq_true, List.all_eq_true, decide_eq_true_eq, Bool.or_eq_true,
-    Bool.not_eq_true', beq_iff_eq] at h
-  obtain ⟨⟨⟨⟨h1, h2⟩, h3⟩, h4⟩, h5⟩ := h
-  refine ⟨h1, h2, h3, h4, ?_⟩
-  intro f hf kv hkv hs
-  rcases h5 f hf kv hkv with h | h
-  · rw [h] at hs; cases hs
-  · exact h
+  simp only [Bool.and_eq_true, List.all_eq_true] at h
+  exact ⟨h.1, h.2⟩
 
-theorem labelSafe_of_safe {name : Str} {labels : Labels} {fields : List Str}
-    (h : Safe name labels fields) : LabelSafe name labels fields := by
+theorem labelSafe_of_safe {name : Str} {labels : Labels} (h : Safe name labels) : LabelSafe name labels := by
   unfold LabelSafe labelSafe
-  simp only [Bool.and_eq_true, List.all_eq_true, decide_eq_true_eq, Bool.or_eq_true,
-    Bool.not_eq_true', beq_iff_eq]
-  refine ⟨⟨⟨⟨h.hname, h.hlabels⟩, h.hfields⟩, h.hnodup⟩, ?_⟩
-  intro f hf kv hkv
-  cases hs : f.isSuffixOf kv.1 with
-  | false => exact Or.inl rfl
-  | true => exact Or.inr (h.hsuffix f hf kv hkv hs)
+  simp only [Bool.and_eq_true, List.all_eq_true]
+  exact ⟨h.hname, h.hlabels⟩
 
 theorem notMem_flatMap_labelStr {c : Nat} {labels : Labels} (hc1 : c ≠ cColon) (hc2 : c ≠ cComma)
     (hl : ∀ kv ∈ labels, c ∉ kv.1 ∧ c ∉ kv.2) : c ∉ labels.flatMap labelStr := by
@@ -259,8 +81,6 @@ theorem notMem_flatMap_labelStr {c : Nat} {labels : Labels} (hc1 : c ≠ cColon)
   · exact (hl kv hkv).2 h
   · exact hc2 h
 
-/-! ### `by`: metric name and pairs -/
-
 theorem filterMap_congr' {α β} {f g : α → Option β} {l : List α} (h : ∀ a ∈ l, f a = g a) :
     l.filterMap f = l.filterMap g := by
   induction l with
@@ -269,44 +89,7 @@ theorem filterMap_congr' {α β} {f g : α → Option β} {l : List α} (h : ∀
     simp only [List.filterMap_cons, h a (by simp)]
     rw [ih (fun a m => h a (by simp [m]))]
 
-theorem metricNameOf_sid {name rest : Str} (hn : cBrace ∉ name) (hr : cBrace ∉ rest) :
-    metricNameOf (name ++ cBrace :: rest) = name := by
-  unfold metricNameOf
-  have h1 : List.count cBrace name = 0 := List.count_eq_zero.2 hn
-  have h2 : List.count cBrace rest = 0 := List.count_eq_zero.2 hr
-  have : List.count cBrace (name ++ cBrace :: rest) = 1 := by
-    simp [List.count_append, h1, h2]
-  rw [if_pos this]
-  exact takeWhile_sep hn
-
-theorem extractPairs_sid {name : Str} {labels : Labels} {fields : List Str}
-    (h : Safe name labels fields) :
-    extractPairs fields (seriesIdOf name labels)
-      = (specGroupKey fields false labels).map kvStr := by
-  unfold extractPairs specGroupKey
-  simp only [Bool.false_eq_true, if_false, List.map_filterMap]
-  apply filterMap_congr'
-  intro f hf
-  have hfc := h.hfields f hf
-  have hv : fieldValue f (seriesIdOf name labels) = labels.lookup f := by
-    unfold seriesIdOf
-    rw [fieldValue_sid f labels name cBrace (clean_colon h.hname) (by decide) (clean_brace hfc) hfc h.hlabels]
-    exact find_suffix_eq_lookup f labels (h.hsuffix f hf)
-  rw [hv]
-  cases labels.lookup f <;> simp [kvStr]
-
-theorem byKey_sid {name : Str} {labels : Labels} {fields : List Str} (h : Safe name labels fields) :
-    byKey fields (seriesIdOf name labels) = render false name (specGroupKey fields false labels) := by
-  unfold byKey render
-  rw [extractPairs_sid h]
-  have hb : cBrace ∉ labels.flatMap labelStr :=
-    notMem_flatMap_labelStr (by decide) (by decide)
-      (fun kv m => ⟨clean_brace (h.hlabels kv m).1, clean_brace (h.hlabels kv m).2⟩)
-  have : metricNameOf (seriesIdOf name labels) = name := metricNameOf_sid (clean_brace h.hname) hb
-  simp [this]
-
-
-/-! ### `without`: strings.Split / SplitN / Join on a tracker-built id -/
+/-! ### strings.Split / SplitN / Join on a tracker-built id -/
 
 theorem splitOn_ne_nil (c : Nat) (s : Str) : splitOn c s ≠ [] := by
   induction s with
@@ -351,7 +134,7 @@ theorem joinWith_cons {c : Nat} {x : Str} {r : List Str} (h : r ≠ []) :
   | cons y r => rfl
 
 /-- Lemma D: the comma-parts of `k1:v1,k2:v2,…,kn:vn,` -/
-theorem splitOn_labels {labels : Labels} (hl : ∀ kv ∈ labels, clean kv.1 = true ∧ clean kv.2 = true) :
+theorem splitOn_labels {labels : Labels} (hl : ∀ kv ∈ labels, clean kv.1 = true ∧ cleanV kv.2 = true) :
     splitOn cComma (labels.flatMap labelStr) = labels.map kvStr ++ [[]] := by
   induction labels with
   | nil => rfl
@@ -362,7 +145,7 @@ theorem splitOn_labels {labels : Labels} (hl : ∀ kv ∈ labels, clean kv.1 = t
       rcases m with m | m | m
       · exact clean_comma (hl kv (by simp)).1 m
       · cases m
-      · exact clean_comma (hl kv (by simp)).2 m
+      · exact cleanV_comma (hl kv (by simp)).2 m
     have : (kv :: ls).flatMap labelStr = kvStr kv ++ cComma :: ls.flatMap labelStr := by
       simp [List.flatMap_cons, labelStr]
     rw [this, splitOn_append_sep hc, ih (fun kv m => hl kv (by simp [m]))]
@@ -376,13 +159,79 @@ theorem joinWith_labels (L : Labels) : joinWith cComma (L.map kvStr ++ [[]]) = L
     rw [this, joinWith_cons (by simp), ih]
     simp [List.flatMap_cons, labelStr]
 
+/-! ### `by`: metric name and pairs -/
+
+theorem metricNameOf_sid {name rest : Str} (hn : cBrace ∉ name) (hr : cBrace ∉ rest) :
+    metricNameOf (name ++ cBrace :: rest) = name := by
+  unfold metricNameOf
+  have h1 : List.count cBrace name = 0 := List.count_eq_zero.2 hn
+  have h2 : List.count cBrace rest = 0 := List.count_eq_zero.2 hr
+  have : List.count cBrace (name ++ cBrace :: rest) = 1 := by
+    simp [List.count_append, h1, h2]
+  rw [if_pos this]
+  exact takeWhile_sep hn
+
+theorem labelPart_sid {name rest : Str} (hn : cBrace ∉ name) : labelPart (name ++ cBrace :: rest) = rest := by
+  unfold labelPart
+  rw [splitFirst_sep hn]
+
+/-- scanning the comma-parts `k1:v1, …, kn:vn, ""` for a key equal to `f` is `List.lookup` -/
+theorem findSome_parts (f : Str) (labels : Labels) (hl : ∀ kv ∈ labels, clean kv.1 = true) :
+    (labels.map kvStr ++ [[]]).findSome? (fun part =>
+      match splitFirst cColon part with
+      | some (k, v) => if k = f then some v else none
+      | none => none) = labels.lookup f := by
+  induction labels with
+  | nil => simp [List.findSome?, splitFirst, List.lookup]
+  | cons kv ls ih =>
+    obtain ⟨k, v⟩ := kv
+    have hk : cColon ∉ k := clean_colon (hl (k, v) (by simp))
+    have ih' := ih (fun kv m => hl kv (by simp [m]))
+    simp only [List.map_cons, List.cons_append, List.findSome?_cons, List.lookup]
+    have : splitFirst cColon (kvStr (k, v)) = some (k, v) := by
+      unfold kvStr; exact splitFirst_sep hk
+    rw [this]
+    by_cases e : k = f
+    · subst e; simp
+    · have e' : (f == k) = false := by simpa using (fun h : f = k => e h.symm)
+      simp only [e, if_false, e']
+      exact ih'
+
+theorem fieldValue_sid {name : Str} {labels : Labels} (h : Safe name labels) (f : Str) :
+    fieldValue f (seriesIdOf name labels) = labels.lookup f := by
+  unfold fieldValue seriesIdOf
+  rw [labelPart_sid (cleanV_brace h.hname), splitOn_labels h.hlabels]
+  exact findSome_parts f labels (fun kv m => (h.hlabels kv m).1)
+
+theorem extractPairs_sid {name : Str} {labels : Labels} (fields : List Str) (h : Safe name labels) :
+    extractPairs fields (seriesIdOf name labels)
+      = (specGroupKey fields false labels).map kvStr := by
+  unfold extractPairs specGroupKey
+  simp only [Bool.false_eq_true, if_false, List.map_filterMap]
+  apply filterMap_congr'
+  intro f _
+  rw [fieldValue_sid h f]
+  cases labels.lookup f <;> simp [kvStr]
+
+theorem byKey_sid {name : Str} {labels : Labels} (fields : List Str) (h : Safe name labels) :
+    byKey fields (seriesIdOf name labels) = render false name (specGroupKey fields false labels) := by
+  unfold byKey render
+  rw [extractPairs_sid fields h]
+  have hb : cBrace ∉ labels.flatMap labelStr :=
+    notMem_flatMap_labelStr (by decide) (by decide)
+      (fun kv m => ⟨clean_brace (h.hlabels kv m).1, cleanV_brace (h.hlabels kv m).2⟩)
+  have : metricNameOf (seriesIdOf name labels) = name := metricNameOf_sid (cleanV_brace h.hname) hb
+  simp [this]
+
+/-! ### `without` -/
+
 theorem keepPart_kvStr {fields : List Str} {kv : Str × Str} (hk : clean kv.1 = true) :
     keepPart fields (kvStr kv) = !fields.contains kv.1 := by
   unfold keepPart kvStr
   rw [splitFirst_sep (clean_colon hk)]
 
 theorem filter_keepPart {fields : List Str} {labels : Labels}
-    (hl : ∀ kv ∈ labels, clean kv.1 = true ∧ clean kv.2 = true) :
+    (hl : ∀ kv ∈ labels, clean kv.1 = true ∧ cleanV kv.2 = true) :
     (labels.map kvStr ++ [[]]).filter (keepPart fields)
       = (labels.filter (fun kv => !fields.contains kv.1)).map kvStr ++ [[]] := by
   induction labels with
@@ -393,7 +242,7 @@ theorem filter_keepPart {fields : List Str} {labels : Labels}
     simp only [List.map_cons, List.cons_append, List.filter_cons, hk]
     cases hfc : fields.contains kv.1 <;> simp [ih']
 
-theorem withoutKey_sid {name : Str} {labels : Labels} {fields : List Str} (h : Safe name labels fields) :
+theorem withoutKey_sid {name : Str} {labels : Labels} (fields : List Str) (h : Safe name labels) :
     withoutKey fields (seriesIdOf name labels) = render true name (specGroupKey fields true labels) := by
   unfold withoutKey render specGroupKey
   simp only [if_true]
@@ -414,38 +263,38 @@ theorem withoutKey_sid {name : Str} {labels : Labels} {fields : List Str} (h : S
         refine ⟨[], ?_, rfl⟩
         have : cComma ∉ name ++ [cBrace] := by
           intro m; rcases List.mem_append.1 m with m | m
-          · exact clean_comma h.hname m
+          · exact cleanV_comma h.hname m
           · simp at m; cases m
         simpa [seriesIdOf] using splitOn_notMem this
       | cons kv ls =>
         refine ⟨kvStr kv, ?_, rfl⟩
-        have hls : ∀ kv ∈ ls, clean kv.1 = true ∧ clean kv.2 = true := fun kv m => h.hlabels kv (by simp [m])
+        have hls : ∀ kv ∈ ls, clean kv.1 = true ∧ cleanV kv.2 = true := fun kv m => h.hlabels kv (by simp [m])
         have hc : cComma ∉ name ++ cBrace :: kvStr kv := by
           intro m
           simp only [kvStr, List.mem_append, List.mem_cons] at m
           rcases m with m | m | m | m | m
-          · exact clean_comma h.hname m
+          · exact cleanV_comma h.hname m
           · cases m
           · exact clean_comma (h.hlabels kv (by simp)).1 m
           · cases m
-          · exact clean_comma (h.hlabels kv (by simp)).2 m
+          · exact cleanV_comma (h.hlabels kv (by simp)).2 m
         have : seriesIdOf name (kv :: ls) = (name ++ cBrace :: kvStr kv) ++ cComma :: ls.flatMap labelStr := by
           simp [seriesIdOf, List.flatMap_cons, labelStr]
         rw [this, splitOn_append_sep hc, splitOn_labels hls]
         simp
     obtain ⟨p0', hsplit, hcons⟩ := hparts
     rw [hsplit]
-    simp only [splitFirst_sep (clean_brace h.hname)]
+    simp only [splitFirst_sep (cleanV_brace h.hname)]
     rw [hcons, filter_keepPart h.hlabels, joinWith_labels]
     rfl
 
-theorem extract_eq_spec {name : Str} {labels : Labels} {fields : List Str} (without : Bool)
-    (h : Safe name labels fields) :
+theorem extract_eq_spec {name : Str} {labels : Labels} (fields : List Str) (without : Bool)
+    (h : Safe name labels) :
     extractGroupKey fields without (seriesIdOf name labels)
       = render without name (specGroupKey fields without labels) := by
   unfold extractGroupKey
   cases without with
-  | true => simpa using withoutKey_sid h
-  | false => simpa using byKey_sid h
+  | true => simpa using withoutKey_sid fields h
+  | false => simpa using byKey_sid fields h
 
 end SigModel.Lemmas.C09
